@@ -29,6 +29,7 @@ SHARED = {
     "GenFill": ["C01", "C02", "C07", "C08", "C17"],
     "GenHorner": ["C03", "C08", "C09", "C15"],
     "GenCPow": ["C14"],
+    "GenRot": ["C04", "C15", "C19"],
 }
 
 
